@@ -654,7 +654,10 @@ func rename(n *Nodis, conn *redis.Conn, cmd redis.Command) {
 	execCommand(conn, func() {
 		oldKey := cmd.Args[0]
 		newKey := cmd.Args[1]
-		_ = n.Rename(oldKey, newKey)
+		if err := n.Rename(oldKey, newKey); err != nil {
+			conn.WriteError("ERR no such key")
+			return
+		}
 		conn.WriteOK()
 	})
 }
